@@ -3,6 +3,7 @@ package rules
 import (
 	"go/token"
 	"go/types"
+	"strings"
 
 	"golang.org/x/tools/go/ssa"
 
@@ -19,7 +20,7 @@ func C11(r *core.Run) {
 		"(R11.2) every backend slices/seeks/limits with exactly that result and the stored size, returns Range()'s error unchanged and reports the range in Object.Range; " +
 		"(R11.3) Content-Range/Content-Length are written from that range and the object size, after the entity headers and before the body; " +
 		"(R11.4) every parse failure of the Range header returns ErrInvalidRange, which maps to 416; " +
-		"(R11.6) no body-returning read answers before Range() was consulted, and a function that receives a range request hands exactly that request to every callee that takes one (no path serves the whole object, or an unchecked range, for a ranged read)."
+		"(R11.6) no body-returning read answers before Range() was consulted, and a function that receives a range request hands exactly that request to every callee that takes one (no path serves the whole object, or an unchecked range, for a ranged read). (R11.7) in the fs backends the file positioned at the range start is handed to nothing but the length-limiting wrapper before it becomes the body."
 	r.NotDecided = "value exactness of start/length for in-range requests, whitespace variants, the multi-range answer (501 today)"
 	ctx := oblig.NewCtx(r.P)
 	rule111(r, ctx)
@@ -28,6 +29,7 @@ func C11(r *core.Run) {
 	rule113(r)
 	rule114(r)
 	rule116(r)
+	rule117(r)
 }
 
 // rule111 checks the result envelope of Range(); returns true if it holds.
@@ -806,4 +808,97 @@ func noBodyEdges(f *ssa.Function, calls []ssa.Instruction) map[core.Edge]bool {
 		}
 	}
 	return out
+}
+
+// rule117 — once positioned at the range start, the object file is only read
+// by whoever receives the response body.
+func rule117(r *core.Run) {
+	r.Rule("R11.7", "in the fs backends' GetObject, after the object file was positioned with Seek(range start) nothing else reads, seeks or is handed that file handle before it is returned as the body (only its Close, and the length-limiting wrapper): a helper that hashes or rewinds the handle returns bytes from another offset under correct Content-Range headers")
+	n := 0
+	for _, impl := range []string{"s3afero.(*MultiBucketBackend)", "s3afero.(*SingleBucketBackend)"} {
+		fn := implMethod(r, impl, "GetObject")
+		if fn == nil {
+			continue
+		}
+		name := fname(r, fn)
+		var seeks []*ssa.Call
+		core.Instrs(fn, func(in ssa.Instruction) {
+			if c, ok := in.(*ssa.Call); ok && c.Call.IsInvoke() && r.P.CalleeName(c) == "invoke:github.com/spf13/afero.File.Seek" {
+				seeks = append(seeks, c)
+			}
+		})
+		if len(seeks) == 0 {
+			r.Unresolved("R11.7: no Seek on the object file in %s", name)
+			continue
+		}
+		for _, sk := range seeks {
+			n++
+			file := sk.Call.Value
+			bad := ""
+			core.Instrs(fn, func(in ssa.Instruction) {
+				c, ok := in.(ssa.CallInstruction)
+				if !ok || in == ssa.Instruction(sk) || !core.Reaches(sk, in) {
+					return
+				}
+				uses := false
+				if c.Common().IsInvoke() && sameHandle(c.Common().Value, file) {
+					uses = true
+				}
+				for _, a := range c.Common().Args {
+					if sameHandle(a, file) {
+						uses = true
+					}
+				}
+				if !uses {
+					return
+				}
+				cn := r.P.CalleeName(c)
+				switch {
+				case cn == "invoke:github.com/spf13/afero.File.Close", cn == "s3afero.limitReadCloser", cn == "io.LimitReader", strings.HasSuffix(cn, ".Close"):
+					return
+				}
+				if _, isDefer := in.(*ssa.Defer); isDefer {
+					return
+				}
+				bad = cn + " at " + pos(r, in)
+			})
+			// the positioned offset is the range start
+			os := r.P.SliceOf(sk.Call.Args[0], core.SliceOpts{Depth: -1})
+			okOff := os.Has("field:gofakes3.ObjectRange.Start")
+			r.Check(bad == "" && okOff, "R11.7", key(name, "positioned handle goes straight to the body", sprintf("#%d", n)), pos(r, sk), "Seek(range.Start), then only the limiting wrapper",
+				"after Seek(range start) the file handle is used again ("+bad+") before it becomes the response body: the body is read from another offset than Content-Range says")
+		}
+	}
+	if n < 2 {
+		r.Unresolved("R11.7: %d positioned reads found (expected one per fs backend)", n)
+	}
+}
+
+// sameHandle: v is file, an interface conversion of it, or another load of
+// the variable file was loaded from (a handle captured by a deferred closure
+// lives in memory; every use is a fresh load).
+func sameHandle(v, file ssa.Value) bool {
+	cell := func(x ssa.Value) ssa.Value {
+		if u, ok := x.(*ssa.UnOp); ok && u.Op == token.MUL {
+			return u.X
+		}
+		return nil
+	}
+	for i := 0; i < 4; i++ {
+		if v == file {
+			return true
+		}
+		if c := cell(v); c != nil && c == cell(file) {
+			return true
+		}
+		switch x := v.(type) {
+		case *ssa.ChangeInterface:
+			v = x.X
+		case *ssa.MakeInterface:
+			v = x.X
+		default:
+			return false
+		}
+	}
+	return false
 }
